@@ -232,6 +232,7 @@ func (proj *Project) Watch(label *label.Label) error {
 
 				if !strings.HasPrefix(event.Path(), proj.work) && !proj.ignored(rel) {
 					dirty = true
+					verifYield("watch.dirty", rel)
 
 					label, err := sourceLabel("//", rel)
 					if err != nil {
@@ -245,6 +246,7 @@ func (proj *Project) Watch(label *label.Label) error {
 					select {
 					case builds <- struct{}{}:
 						dirty = false
+						verifYield("watch.handoff", "")
 					default:
 						// Loop around
 					}
